@@ -20,6 +20,7 @@ package main
 // its limbs are remembered, so chains of operations stay in bit-vector form.
 
 import (
+	"go/types"
 	"math/big"
 
 	"golang.org/x/tools/go/ssa"
@@ -280,5 +281,317 @@ func init() {
 			return fromBV(mkBin(OAShr, l[c05K-1], mkBV(63, 64)), 64, false)
 		}
 		return fromBV(l[i], 64, false)
+	})
+}
+
+// ---- math/big.Rat with a symbolic numerator -------------------------------------------------
+//
+// The stock engine runs big.Rat natively on concrete values only.  Here a Rat may have a symbolic
+// numerator (SMT Int term) over a CONCRETE positive denominator, kept in lowest terms: when a value
+// n/d is formed, the path forks over the divisors g of d (largest first) on "g divides n", so that
+// on every path the gcd is a known constant and the stored fraction is (n div g)/(d/g).  All
+// arithmetic then stays linear in the numerators except Mul of two symbolic numerators.  A
+// symbolic denominator (Inv / Quo by a symbolic numerator, NewRat/SetFrac with a symbolic second
+// argument) ends the path as unsupported: harnesses take denominators from case parameters.
+// With concrete operands every method is delegated to the real math/big as before.
+
+func c05RatOf(fr *frame, v Val) (*BigRat, *Val) {
+	p, ok := v.(*Val)
+	if !ok || p == nil {
+		unsupported("C05 rat model: big.Rat operand is not a cell")
+	}
+	r, ok := (*p).(*BigRat)
+	if !ok {
+		unsupported("C05 rat model: cell does not hold a big.Rat")
+	}
+	return r, p
+}
+
+func c05RatConc(r *BigRat) bool { return r.num.isConc() && r.den.isConc() }
+
+var c05DivisorMemo = map[string][]*big.Int{}
+
+// divisors of d (> 1), largest first; nil, false if d cannot be factored cheaply
+func c05Divisors(d *big.Int) ([]*big.Int, bool) {
+	key := d.String()
+	if ds, ok := c05DivisorMemo[key]; ok {
+		return ds, ds != nil
+	}
+	type pf struct {
+		p *big.Int
+		e int
+	}
+	var fs []pf
+	rest := new(big.Int).Set(d)
+	for p := int64(2); p < 1<<20 && rest.Cmp(big.NewInt(1)) > 0; p++ {
+		bp := big.NewInt(p)
+		if new(big.Int).Mul(bp, bp).Cmp(rest) > 0 {
+			break
+		}
+		e := 0
+		for new(big.Int).Rem(rest, bp).Sign() == 0 {
+			rest.Quo(rest, bp)
+			e++
+		}
+		if e > 0 {
+			fs = append(fs, pf{bp, e})
+		}
+	}
+	if rest.Cmp(big.NewInt(1)) > 0 {
+		if !rest.ProbablyPrime(20) {
+			c05DivisorMemo[key] = nil
+			return nil, false
+		}
+		fs = append(fs, pf{rest, 1})
+	}
+	ds := []*big.Int{big.NewInt(1)}
+	for _, f := range fs {
+		n := len(ds)
+		pw := big.NewInt(1)
+		for e := 1; e <= f.e; e++ {
+			pw = new(big.Int).Mul(pw, f.p)
+			for i := 0; i < n; i++ {
+				ds = append(ds, new(big.Int).Mul(ds[i], pw))
+			}
+		}
+	}
+	if len(ds) > 200 {
+		c05DivisorMemo[key] = nil
+		return nil, false
+	}
+	// sort descending, drop 1
+	for i := 1; i < len(ds); i++ {
+		for j := i; j > 0 && ds[j].Cmp(ds[j-1]) > 0; j-- {
+			ds[j], ds[j-1] = ds[j-1], ds[j]
+		}
+	}
+	ds = ds[:len(ds)-1]
+	c05DivisorMemo[key] = ds
+	return ds, true
+}
+
+// c05RatNorm: the Rat n/d in lowest terms (d concrete, non-zero).
+func c05RatNorm(n *Term, d *big.Int) *BigRat {
+	d = new(big.Int).Set(d)
+	if d.Sign() < 0 {
+		d.Neg(d)
+		n = mkINeg(n)
+	}
+	if n.op == OConst {
+		r := new(big.Rat).SetFrac(n.z, d)
+		return &BigRat{num: BigInt{c: new(big.Int).Set(r.Num())}, den: BigInt{c: new(big.Int).Set(r.Denom())}}
+	}
+	if d.Cmp(big.NewInt(1)) == 0 {
+		return &BigRat{num: *mkBigInt(n), den: BigInt{c: d}}
+	}
+	ds, ok := c05Divisors(d)
+	if !ok {
+		unsupported("C05 rat model: denominator with too many / unknown divisors")
+	}
+	for _, g := range ds {
+		if inBranch(mkEq(mkIBin(OIMod, n, mkInt(g)), mkInt64(0))) {
+			q := mkIBin(OIDiv, n, mkInt(g))
+			return &BigRat{num: *mkBigInt(q), den: BigInt{c: new(big.Int).Quo(d, g)}}
+		}
+	}
+	return &BigRat{num: *mkBigInt(n), den: BigInt{c: d}}
+}
+
+func c05ConstMul(t *Term, c *big.Int) *Term {
+	if c.Cmp(big.NewInt(1)) == 0 {
+		return t
+	}
+	return mkIBin(OIMul, t, mkInt(c))
+}
+
+func c05SetRat(cell Val, r *BigRat) Val {
+	c05EnsureNumDenom()
+	p := cell.(*Val)
+	setCell(p, r)
+	return cell
+}
+
+func init() {
+	regRat := func(name string, f intrinsic) { reg("(*math/big.Rat)."+name, f) }
+	needConcDen := func(r *BigRat) {
+		if !r.den.isConc() {
+			unsupported("C05 rat model: symbolic denominator")
+		}
+	}
+	binop := func(kind string) intrinsic {
+		return func(fr *frame, fn *ssa.Function, args []Val) Val {
+			c05RatOf(fr, args[0])
+			x, _ := c05RatOf(fr, args[1])
+			y, _ := c05RatOf(fr, args[2])
+			if c05RatConc(x) && c05RatConc(y) {
+				return bigMethodNative(fr, fn, args)
+			}
+			needConcDen(x)
+			needConcDen(y)
+			n1, n2 := x.num.term(), y.num.term()
+			d1, d2 := x.den.c, y.den.c
+			var r *BigRat
+			switch kind {
+			case "Add":
+				r = c05RatNorm(mkIBin(OIAdd, c05ConstMul(n1, d2), c05ConstMul(n2, d1)), new(big.Int).Mul(d1, d2))
+			case "Sub":
+				r = c05RatNorm(mkIBin(OISub, c05ConstMul(n1, d2), c05ConstMul(n2, d1)), new(big.Int).Mul(d1, d2))
+			case "Mul":
+				r = c05RatNorm(smartMul(n1, n2), new(big.Int).Mul(d1, d2))
+			case "Quo":
+				if !y.num.isConc() {
+					unsupported("C05 rat model: Quo by a symbolic numerator")
+				}
+				if y.num.c.Sign() == 0 {
+					in.path.faults = append(in.path.faults, faultRec{kind: "native-panic", site: "math/big.(*Rat).Quo", msg: "division by zero"})
+					panic(targetPanic{Iface{t: types.Typ[types.String], v: "division by zero", box: 1}})
+				}
+				r = c05RatNorm(c05ConstMul(n1, d2), new(big.Int).Mul(d1, y.num.c))
+			}
+			return c05SetRat(args[0], r)
+		}
+	}
+	for _, k := range []string{"Add", "Sub", "Mul", "Quo"} {
+		regRat(k, binop(k))
+	}
+	unop := func(kind string) intrinsic {
+		return func(fr *frame, fn *ssa.Function, args []Val) Val {
+			c05RatOf(fr, args[0])
+			x, _ := c05RatOf(fr, args[1])
+			if c05RatConc(x) {
+				return bigMethodNative(fr, fn, args)
+			}
+			needConcDen(x)
+			var r *BigRat
+			switch kind {
+			case "Neg":
+				r = &BigRat{num: *mkBigInt(mkINeg(x.num.t)), den: x.den}
+			case "Abs":
+				r = &BigRat{num: *mkBigInt(mkIAbs(x.num.t)), den: x.den}
+			case "Set":
+				r = x
+			case "Inv":
+				unsupported("C05 rat model: Inv of a symbolic numerator")
+			}
+			return c05SetRat(args[0], r)
+		}
+	}
+	for _, k := range []string{"Neg", "Abs", "Set", "Inv"} {
+		regRat(k, unop(k))
+	}
+	regRat("SetInt", func(fr *frame, fn *ssa.Function, args []Val) Val {
+		c05RatOf(fr, args[0])
+		x := bigOf(fr, args[1])
+		if x.isConc() {
+			return bigMethodNative(fr, fn, args)
+		}
+		return c05SetRat(args[0], &BigRat{num: *x, den: BigInt{c: big.NewInt(1)}})
+	})
+	regRat("SetInt64", func(fr *frame, fn *ssa.Function, args []Val) Val {
+		c05RatOf(fr, args[0])
+		if _, ok := args[1].(int64); ok {
+			return bigMethodNative(fr, fn, args)
+		}
+		return c05SetRat(args[0], &BigRat{num: *mkBigInt(intArg(args[1])), den: BigInt{c: big.NewInt(1)}})
+	})
+	regRat("SetFrac", func(fr *frame, fn *ssa.Function, args []Val) Val {
+		c05RatOf(fr, args[0])
+		a, b := bigOf(fr, args[1]), bigOf(fr, args[2])
+		if a.isConc() && b.isConc() {
+			return bigMethodNative(fr, fn, args)
+		}
+		if !b.isConc() {
+			unsupported("C05 rat model: SetFrac with a symbolic denominator")
+		}
+		if b.c.Sign() == 0 {
+			in.path.faults = append(in.path.faults, faultRec{kind: "native-panic", site: "math/big.(*Rat).SetFrac", msg: "division by zero"})
+			panic(targetPanic{Iface{t: types.Typ[types.String], v: "division by zero", box: 1}})
+		}
+		return c05SetRat(args[0], c05RatNorm(a.term(), b.c))
+	})
+	stockNewRat := func(fr *frame, fn *ssa.Function, args []Val) Val {
+		return callNative(fr, "math/big.NewRat", nativeFuncs["math/big.NewRat"], args, fn.Signature)
+	}
+	reg("math/big.NewRat", func(fr *frame, fn *ssa.Function, args []Val) Val {
+		_, ca := args[0].(int64)
+		b, cb := args[1].(int64)
+		if ca && cb {
+			return stockNewRat(fr, fn, args)
+		}
+		if !cb {
+			unsupported("C05 rat model: NewRat with a symbolic denominator")
+		}
+		if b == 0 {
+			in.path.faults = append(in.path.faults, faultRec{kind: "native-panic", site: "math/big.NewRat", msg: "division by zero"})
+			panic(targetPanic{Iface{t: types.Typ[types.String], v: "division by zero", box: 1}})
+		}
+		c := new(Val)
+		*c = c05RatNorm(intArg(args[0]), big.NewInt(b))
+		c05EnsureNumDenom()
+		return c
+	})
+	regRat("Sign", func(fr *frame, fn *ssa.Function, args []Val) Val {
+		x, _ := c05RatOf(fr, args[0])
+		if x.num.isConc() {
+			return int64(x.num.c.Sign())
+		}
+		z := mkInt64(0)
+		if inBranch(mkEq(x.num.t, z)) {
+			return int64(0)
+		}
+		if inBranch(mkICmp(OILt, x.num.t, z)) {
+			return int64(-1)
+		}
+		return int64(1)
+	})
+	regRat("Cmp", func(fr *frame, fn *ssa.Function, args []Val) Val {
+		x, _ := c05RatOf(fr, args[0])
+		y, _ := c05RatOf(fr, args[1])
+		if c05RatConc(x) && c05RatConc(y) {
+			return bigMethodNative(fr, fn, args)
+		}
+		needConcDen(x)
+		needConcDen(y)
+		a := c05ConstMul(x.num.term(), y.den.c)
+		b := c05ConstMul(y.num.term(), x.den.c)
+		if inBranch(mkEq(a, b)) {
+			return int64(0)
+		}
+		if inBranch(mkICmp(OILt, a, b)) {
+			return int64(-1)
+		}
+		return int64(1)
+	})
+	regRat("IsInt", func(fr *frame, fn *ssa.Function, args []Val) Val {
+		x, _ := c05RatOf(fr, args[0])
+		needConcDen(x)
+		return x.den.c.Cmp(big.NewInt(1)) == 0
+	})
+}
+
+// x_c10.go registers concrete-only Num/Denom after this file's init ran (file order), so the
+// versions that also accept a symbolic numerator are installed when the first symbolic Rat is made
+// (for concrete Rats they behave like x_c10's: a copy of the part).
+var c05NumDenomDone bool
+
+func c05EnsureNumDenom() {
+	if c05NumDenomDone {
+		return
+	}
+	c05NumDenomDone = true
+	// Num / Denom: a copy (math/big hands out a reference into the Rat for Num; slip only reads it)
+	reg("(*math/big.Rat).Num", func(fr *frame, fn *ssa.Function, args []Val) Val {
+		x, _ := c05RatOf(fr, args[0])
+		c := new(Val)
+		n := x.num
+		*c = &n
+		return c
+	})
+	reg("(*math/big.Rat).Denom", func(fr *frame, fn *ssa.Function, args []Val) Val {
+		x, _ := c05RatOf(fr, args[0])
+		c := new(Val)
+		d := x.den
+		*c = &d
+		return c
 	})
 }
